@@ -12,6 +12,12 @@ def gen_refs(rng, tier):
         if rng.random() < 0.2:
             steps += c05.cursor_steps(["highlight"], ws, rng, both_ends=False)
         out.append(c05.make_case([(fn, text) for fn, text, _ in ws], steps))
+    # two workspaces with more files than the references worker pool has workers (queries only in two of the files)
+    for _ in range(2 if tier != "thorough" else 20):
+        ws = c05.gen_many_files_workspace(rng)
+        steps = c05.cursor_steps(["refs"], ws[:1] + ws[-1:], rng)
+        steps = [s if s.split(":")[1] == "0" else ":".join([s.split(":")[0], str(len(ws) - 1)] + s.split(":")[2:]) for s in steps]
+        out.append(c05.make_case([(fn, text) for fn, text, _ in ws], steps))
     return out
 
 
